@@ -641,8 +641,10 @@ def compare_batch(chk, batch, stage, oracle=True):
                 shown = mod[name] if mod[name][0] != "reported" else ["reported", mod[name][1], label(mod[name][2]), free_string(mod[name][2])]
                 chk.disagree(f"{stage}: {'use_after_free' if name == 'uaf' else 'ensure_resource_availability'} vs model", canon, impl[name], shown)
                 ok = False
-        if not ok or not oracle:
+        if not oracle or not isinstance(impl["related"], list):
             continue
+        # the oracle below runs also when the model disagreed: it only reads the implementation's outcome, the python reference
+        # predicates and the region bits (which are facts about the input), so a broken tie still gets its concrete failing input
         if impl["uaf"][0] == "reported" or impl["avail"][0] == "reported":
             chk.sample({"history": [[label(nd), o_pp(nd), nd["parent"], nd["status"]] for nd in nodes], "checked": k, "status": st,
                         "use_after_free": impl["uaf"][:4], "ensure_resource_availability": impl["avail"][:3]})  # fmt: skip
@@ -676,12 +678,12 @@ def compare_batch(chk, batch, stage, oracle=True):
         if uaf_rep and not allowed:
             if in_regions:
                 chk.disagree("use_after_free accuses outside every region (theorem C18_uaf_partial)", canon, impl["uaf"], "not allowed")
-            region = "uaf_parent_status_unsound" if not bits["delete_agrees_with_parent"] else "prefix_heuristic"
+            region = None if in_regions else ("uaf_parent_status_unsound" if not bits["delete_agrees_with_parent"] else "prefix_heuristic")
             chk.fail("use_after_free reported without an earlier successful DELETE of the same resource", canon, impl["uaf"], region=region)
         if required and not uaf_rep:
             if in_regions:
                 chk.disagree("use_after_free silent outside every region (theorem C18_uaf_partial)", canon, impl["uaf"], "required")
-            region = "uaf_parent_status_missed" if not bits["delete_agrees_with_parent"] else "prefix_heuristic"
+            region = None if in_regions else ("uaf_parent_status_missed" if not bits["delete_agrees_with_parent"] else "prefix_heuristic")
             chk.fail("use_after_free not reported after a successful DELETE of the same resource", canon, impl["uaf"], region=region)
         if impl["avail"][0] == "reported" and not a_allowed:
             if not bits["parent_not_3xx"]:
